@@ -64,9 +64,15 @@ func firedPattern(d decision) []bool {
 	return out
 }
 
-func c08Echo(c *caseCtx) {
+func c08Echo(c *caseCtx) { c08EchoSized(c, 2, 4) }
+
+// c08EchoSingle: the same with exactly one known alternative (nothing to compare, nothing to reverse between
+// alternatives - a bias with probability 1 still fires and says so)
+func c08EchoSingle(c *caseCtx) { c08EchoSized(c, 1, 1) }
+
+func c08EchoSized(c *caseCtx, minAlt, maxAlt int) {
 	method := methods[c.idx%len(methods)]
-	g := genRequest(c.rng, genOpts{method: method, nBiases: 1 + c.rng.Intn(4), minCrit: 2, maxCrit: 4, minAlt: 2, maxAlt: 4})
+	g := genRequest(c.rng, genOpts{method: method, nBiases: 1 + c.rng.Intn(4), minCrit: 2, maxCrit: 4, minAlt: minAlt, maxAlt: maxAlt})
 	if (method == "weightedSum" || method == "owa" || method == "choquetIntegral") && c.rng.Intn(12) == 0 {
 		g.M["choseToMake"] = []interface{}{} // nothing to rank is still a request whose biases are processed and echoed
 		g.chose = nil
@@ -519,6 +525,8 @@ func init() {
 			{name: "echo", n: tierN(14000, 300000), unit: 3500, run: c08Echo, floors: map[string]int64{"echo_checked": 8000, "disabled_equivalence_checked": 4000, "http_path_compared": 8000}},
 			{name: "echo-service", n: tierN(3000, 50000), unit: 1500, run: c08Echo, service: true,
 				note: "the same generator and oracle as the stream named in front of the dash, but every request goes through decideHandler of main.go in-process (gin binding, the handler's own request object) after a history of 1..3 unrelated requests (accepted and rejected)"},
+			{name: "echoSingle", n: tierN(3500, 60000), unit: 1750, run: c08EchoSingle, floors: map[string]int64{"echo_checked": 2000},
+				note: "the echo stream on requests with exactly one known alternative: every bias with probability 1 fires and reports props (fast paths for 'nothing to compare')"},
 			{name: "neverFiring", n: tierN(4000, 60000), unit: 2000, run: c08NeverFiring, floors: map[string]int64{"never_firing_compared": 2500},
 				note: "1..3 biases with probability 0 (plus disabled entries) against the same request without biases: same verdict, same result; ~17% with a method name the service does not know as spelled"},
 			{name: "threshold", n: tierN(600, 12000), unit: 75, run: c08Threshold, floors: map[string]int64{"thresholds_checked": 500, "independence_checked": 1000}},
